@@ -141,6 +141,8 @@ class Ctx:
         self.started_targets = {}  # targets whose function was entered (so a file there is ours to remove)
         self.spell_rng = None      # C07: spell every path handed to the library differently
         self.spellings = {}
+        self.cache_probe = None    # C16: () -> description if the old cache file is no longer in place as it was before the build
+        self.cache_early = []
 
     def set_spelling(self, seed, step):
         if seed is not None:
@@ -322,6 +324,11 @@ def fault_cls(ctx, e, depth):
 
 def run_func(ctx, idx, b, target, arg, kw, is_root=False, rest=()):
     f = ctx.funcs[idx]
+    if ctx.cache_probe is not None and not ctx.cache_early:
+        # C16: while user code runs, the committed cache file of the previous build is still in place
+        w = ctx.cache_probe()
+        if w:
+            ctx.cache_early.append([f['name'], w])
     if not is_root:
         ctx.inv.append([f['name'], ctx.rel(target) if target is not None else None,
                         wire.enc([arg] + list(rest)), wire.enc(kw)])
